@@ -51,6 +51,15 @@ def stmt_from(src, anchor_rx, which=0):
     return head + "{" + body + "}"
 
 
+def tail_from(src, anchor_rx):
+    """from the match of anchor_rx to the end of the (function) text, without its closing brace"""
+    m = re.search(anchor_rx, src)
+    if not m:
+        raise core.Inconclusive("slice anchor %r not found" % anchor_rx)
+    end = src.rstrip().rfind("}")
+    return src[m.start():end]
+
+
 def expr_group(src, rx, which=0):
     ms = list(re.finditer(rx, src, re.S))
     if len(ms) <= which:
@@ -75,6 +84,7 @@ SLICES = {
     "find_run": [("/*SLICE*/", "src/util/trysort.rs", "stmt", r"if start > 0 \{", "try_sort")],
     "gen_slice_arm": [("/*SLICE*/", "src/builtin/generators.rs", "block", r"Self::Slice\(gen, start, end\)\s*=>\s*either_g\(\{", "_iter")],
     "take_while_loop": [("/*SLICE*/", "src/builtin/sequence.rs", "stmt", r"for \(\(i, item\), search\) in search\(", "add_sequence_take_while")],
+    "overload_rank": [("/*SLICE*/", "src/compilation_scope.rs", "tail", r"let mut exact_matches = vec!\[\];", "resolve_overload")],
     "trampoline": [
         ("/*SLICE*/", "src/runtime_scope.rs", "block", r"XFunction::UserFunction\s*\{\s*template,\s*output\s*\}\s*=>\s*\{", "eval_func_with_values"),
     ],
@@ -94,7 +104,7 @@ def generate(real_dir):
             src = open(os.path.join(core.REPO, rel)).read()
             if scope:
                 src = function_text(src, scope)
-            body = block_after(src, rx) if mode == "block" else stmt_from(src, rx) if mode == "stmt" else expr_group(src, rx)
+            body = block_after(src, rx) if mode == "block" else stmt_from(src, rx) if mode == "stmt" else tail_from(src, rx) if mode == "tail" else expr_group(src, rx)
             if marker not in tpl:
                 raise core.Inconclusive("slice template %s has no marker %s" % (name, marker))
             tpl = tpl.replace(marker, body)
